@@ -5,6 +5,7 @@
    P sz s : the native bytes scanf("%lf" / "%f") stores for the token s
    They are universally quantified; [fcontract F P t] (Spec.v, H_num) is the only thing assumed about
    them and is evaluated by the contract monitor on every case of every run. *)
+From Coq Require Import QArith Qabs.
 From Coq.Strings Require Import Byte.
 From EsVerif.Common Require Import Base Bytes.
 From EsVerif.C04 Require Import Gen TextModel Spec DecProofs ScanProofs WriteProofs RoundTrip CheckProofs FmtModel FmtProofs AccProofs Exec ExecProofs.
@@ -97,6 +98,20 @@ Theorem C04_accuracy_powers : forall k,
   /\ (-40 <= k <= 40 -> fcell_ok_b F_model P_model 8 (pow_img 10 8 k) = true)
   /\ (-37 <= k <= 38 -> fcell_ok_b F_model P_model 4 (pow_img 10 4 k) = true).
 Proof. exact accuracy_powers. Qed.
+
+(* ---- where the accuracy clause of H_num comes from: printing correctly rounded to [digits] significant digits and reading
+   back a nearest representable number (x itself being representable) differ from x by at most one unit of the last
+   digit; and the two rounding steps of the model (decimal digits in printf, binary mantissa in strtod) are
+   nearest-roundings of the exact quotient *)
+Theorem C04_accuracy_from_correct_rounding : forall digits x p y e,
+  (Qpower ten e <= Qabs x)%Q -> (Qabs x < Qpower ten (e + 1))%Q ->
+  (Qabs (p - x) <= (1 # 2) * Qpower ten (e - digits + 1))%Q ->
+  (Qabs (y - p) <= Qabs (x - p))%Q ->
+  sig_close digits x y.
+Proof. exact sig_close_from_correct_rounding. Qed.
+
+Theorem C04_model_rounding_is_nearest : forall a b, 0 <= a -> 0 < b -> 2 * Z.abs (rhe a b * b - a) <= b.
+Proof. exact rhe_nearest. Qed.
 
 Example C04_fmt_model_examples :
   F16 8 [x55; x55; x55; x55; x55; x55; xd5; x3f] = [x30; x2e; x33; x33; x33; x33; x33; x33; x33; x33; x33; x33; x33; x33; x33; x33; x33; x33]
